@@ -1471,6 +1471,9 @@ impl Interpreter {
         self.env = self.global_env.cheap_clone();
         self.env_guards.clear();
         self.call_stack.clear();
+        // Exports collected by a module body that did not finish (it threw, or the host gave the
+        // run up) belong to no module: the next module evaluated must not inherit them
+        self.exports.clear();
     }
 
     /// Starting a new run abandons whatever the previous one was still waiting for: a
